@@ -66,8 +66,9 @@ func SignJSON(signingName string, keyID KeyID, privateKey ed25519.PrivateKey, me
 		return nil, err
 	}
 	signature := spec.Base64Bytes(ed25519.Sign(privateKey, canonical))
-	if _, ok := preserve.Signatures[signingName]; ok {
-		preserve.Signatures[signingName][keyID] = signature
+	// An entity's entry may be present and null: treat it like an absent one.
+	if existing := preserve.Signatures[signingName]; existing != nil {
+		existing[keyID] = signature
 	} else {
 		preserve.Signatures[signingName] = map[KeyID]spec.Base64Bytes{
 			keyID: signature,
